@@ -76,6 +76,8 @@ class St:
         self.cells = {}        # (region, offset key) -> stored value (pointers kept in arrays)
         self.wraps = []        # descriptions of unsigned wrap-arounds taken on this path
         self.wlog = []         # ordered log of memory writes (content provenance, see Engine.log_write)
+        self.ghost = []        # observation facts: ('elem', Ptr, value) | ('memcmp', a, b, n, result) |
+        #                        ('inset', set Ptr, value, found)
         self.status = 'normal'
         self.ret = None
         self.trail = []        # human readable branch decisions
@@ -91,6 +93,7 @@ class St:
         s.cells = dict(self.cells)
         s.wraps = list(self.wraps)
         s.wlog = list(self.wlog)
+        s.ghost = list(self.ghost)
         s.status = self.status
         s.ret = self.ret
         s.trail = list(self.trail)
@@ -511,6 +514,10 @@ class Engine:
                 cell = st.cells.get((lv[1].region, lv[1].off.key()))
                 if cell is not None:
                     return cell
+                if self.cfg.get('track_reads') and (btype(t) in UBITS or btype(t) in SBITS):
+                    v = self.fresh('elem', st, t)
+                    st.ghost.append(('elem', lv[1], v))
+                    return v
             return self.fresh('elem', st, t) if btype(t) in UBITS or btype(t) in SBITS else UNKNOWN
         return UNKNOWN
 
@@ -1106,6 +1113,8 @@ class Engine:
         st.vars = {k: self.rename_value(v, a, b) for k, v in st.vars.items()}
         if st.ret is not None:
             st.ret = self.rename_value(st.ret, a, b)
+        if st.ghost:
+            st.ghost = [tuple(self.rename_value(x, a, b) if isinstance(x, Ptr) else x for x in e) for e in st.ghost]
         if st.wlog:
             st.wlog = [tuple(self.rename_value(x, a, b) if isinstance(x, Ptr) else
                              (self.swap_name(x, a, b) if i == 1 and e[0] == 'unknown' else x)
@@ -1963,7 +1972,35 @@ def m_memcmp(eng, n, st, func, want):
         if isinstance(cnt, Lin):
             eng.access(s1, a, cnt, 'memcmp operand 1', n, func)
             eng.access(s1, b, cnt, 'memcmp operand 2', n, func)
-        out.append((eng.fresh('memcmp', s1, 'int'), s1))
+        r = eng.fresh('memcmp', s1, 'int')
+        if eng.cfg.get('track_reads') and isinstance(a, Ptr) and isinstance(b, Ptr) and isinstance(cnt, Lin):
+            s1.ghost.append(('memcmp', a, b, cnt, r))
+        out.append((r, s1))
+    return out
+
+
+def m_strchr(eng, n, st, func, want):
+    """strchr( set, c): a pointer into the C string set, or null"""
+    _, args = _args(eng, n)
+    out = []
+    for (p, c), s1 in _ev_all(eng, args[:2], st, func):
+        if not isinstance(p, Ptr):
+            out.append((UNKNOWN, s1))
+            continue
+        base = s1.fields.get((p.region, 'strlen'))
+        if base is None:
+            eng.obligations.append(Obligation(eng.root, 'bounds', 'strchr() argument is a NUL-terminated string', False,
+                                              func.loc(n), 'length of %r unknown' % (p,)))
+        found = s1.copy()
+        k = eng.fresh('strchr', found, 'unsigned long')
+        if base is not None:
+            found.assume(ge(k, p.off), le(k, base))
+        found.trail.append('strchr finds the character')
+        found.ghost.append(('inset', p, c, True))
+        out.append((Ptr(p.region, k), found))
+        s1.trail.append('strchr does not find the character')
+        s1.ghost.append(('inset', p, c, False))
+        out.append((lin(0), s1))
     return out
 
 
@@ -2254,6 +2291,7 @@ def _up_region(eng, st, ov):
 
 
 DEFAULT_MODELS = {
+    'strchr': m_strchr, 'std::strchr': m_strchr,
     'memcpy': m_memcpy, 'std::memcpy': m_memcpy, 'memmove': m_memcpy, 'std::memmove': m_memcpy,
     'memset': m_memset, 'std::memset': m_memset,
     'memcmp': m_memcmp, 'std::memcmp': m_memcmp,
